@@ -14,12 +14,14 @@ pub fn dispatch(op: &str, case: &Value) -> Value {
         "status_code" => op_status_code(case),
         "status_scan" => op_status_scan(case),
         "page_token" => op_page_token(case),
+        "wide_token" => op_wide_token(case),
         "token_in" => op_token_in(case),
         "whichpage" => op_whichpage(case),
         "results_page" => op_results_page(case),
         "page_limit" => op_page_limit(case),
         "page_limit_bad" => op_page_limit_bad(case),
         "scan" => op_scan(case),
+        "token_transport" => op_token_transport(case),
         "response" => op_response(case),
         "response_headers" => op_response_headers(case),
         "ws_handshake" => op_ws_handshake(case),
@@ -483,6 +485,26 @@ fn base_json_len() -> usize {
     token_json_len(&issue("").unwrap().unwrap()).unwrap()
 }
 
+#[derive(Debug, Clone, PartialEq, Deserialize, Serialize, JsonSchema)]
+struct WideSel { u: u128, i: i128 }
+
+/// {"op":"wide_token"}: selectors holding 128-bit integers around and beyond the 64-bit range, issued and fed back
+fn op_wide_token(_case: &Value) -> Value {
+    let vals: Vec<(u128, i128)> = vec![(0, 0), (u64::MAX as u128, i64::MIN as i128), (u64::MAX as u128 + 1, i64::MIN as i128 - 1), (u128::MAX, i128::MIN), (1u128 << 100, i128::MAX)];
+    let mut failing = vec![];
+    for (u, i) in vals {
+        let sel = WideSel { u, i };
+        let page = match ResultsPage::new(vec![sel.clone()], &(), |item: &WideSel, _: &()| item.clone()) { Ok(p) => p, Err(e) => { failing.push(json!({"u": u.to_string(), "issue_error": e.status_code.as_u16()})); continue } };
+        let token = page.next_page.unwrap();
+        let q = serde_urlencoded::to_string(&[("page_token", token.as_str())]).unwrap();
+        match serde_urlencoded::from_str::<PaginationParams<Scan, WideSel>>(&q) {
+            Ok(p) => match p.page { WhichPage::Next(back) if back == sel => {}, other => failing.push(json!({"u": u.to_string(), "i": i.to_string(), "back": format!("{:?}", other)})) },
+            Err(e) => failing.push(json!({"u": u.to_string(), "i": i.to_string(), "error": e.to_string()})),
+        }
+    }
+    json!({"roundtrip_all": failing.is_empty(), "failing": failing})
+}
+
 /// {"op":"page_token","json_len":n} : issue tokens for a family of selectors whose token JSON has n bytes, feed each back
 fn op_page_token(case: &Value) -> Value {
     let n = case["json_len"].as_u64().unwrap() as usize;
@@ -587,7 +609,10 @@ fn op_token_in(case: &Value) -> Value {
 /// {"op":"whichpage","shape":"token"|"token+other"|"other"|"empty","len":n}
 fn op_whichpage(case: &Value) -> Value {
     let shape = case["shape"].as_str().unwrap();
-    let token = issue("sel-value").unwrap().unwrap();
+    let token = match case["token_text"].as_str() {
+        Some(t) => t.to_string(),
+        None => issue("sel-value").unwrap().unwrap(),
+    };
     let mut parts: Vec<(&str, &str)> = vec![];
     if shape.contains("other") { parts.push(("sort_by", "name-descending")); }
     if shape.contains("token") { parts.push(("page_token", token.as_str())); }
@@ -719,6 +744,65 @@ fn op_scan(case: &Value) -> Value {
             let ok = seen == want && max_page <= eff && !token_on_empty && !missing_token;
             json!({"as_specified": ok, "pages": pages, "items_seen": seen.len(), "max_page": max_page, "effective_limit": eff,
                    "token_on_empty_page": token_on_empty, "non_empty_page_without_token": missing_token})
+        }).await.unwrap();
+        let _ = server.close().await;
+        out
+    })
+}
+
+#[derive(Debug, Clone, PartialEq, Deserialize, Serialize, JsonSchema)]
+struct NameSel { name: String }
+#[derive(Debug, Clone, PartialEq, Deserialize, Serialize, JsonSchema)]
+struct NoScan {}
+
+#[endpoint { method = GET, path = "/names" }]
+async fn paged_names(
+    rqctx: RequestContext<Vec<String>>,
+    query: Query<PaginationParams<NoScan, NameSel>>,
+) -> Result<HttpResponseOk<ResultsPage<String>>, HttpError> {
+    let all = rqctx.context();
+    let p = query.into_inner();
+    let limit = rqctx.page_limit(&p)?.get() as usize;
+    let start = match &p.page {
+        WhichPage::First(_) => 0,
+        WhichPage::Next(sel) => all.iter().position(|n| *n == sel.name).map(|i| i + 1).unwrap_or(all.len()),
+    };
+    let items: Vec<String> = all[start..].iter().take(limit).cloned().collect();
+    Ok(HttpResponseOk(ResultsPage::new(items, &NoScan {}, |i: &String, _: &NoScan| NameSel { name: i.clone() })?))
+}
+
+/// {"op":"token_transport","names":[..],"limit":l}: follow next-page tokens by pasting each token into the query string exactly as
+/// it was returned (as dropshot's own tests, examples and documentation do)
+fn op_token_transport(case: &Value) -> Value {
+    use std::io::{Read, Write};
+    let names: Vec<String> = case["names"].as_array().unwrap().iter().map(|x| x.as_str().unwrap().to_string()).collect();
+    let limit = case["limit"].as_u64().unwrap_or(1);
+    let rt = tokio::runtime::Builder::new_multi_thread().worker_threads(2).enable_all().build().unwrap();
+    rt.block_on(async move {
+        let mut api = ApiDescription::new();
+        api.register(paged_names).unwrap();
+        let log = slog::Logger::root(slog::Discard, slog::o!());
+        let server = dropshot::ServerBuilder::new(api, names.clone(), log).start().expect("server");
+        let addr = server.local_addr();
+        let out = tokio::task::spawn_blocking(move || {
+            let mut seen: Vec<String> = vec![];
+            let mut token: Option<String> = None;
+            let mut tokens: Vec<String> = vec![];
+            for _ in 0..(names.len() + 2) {
+                let q = match &token { Some(t) => format!("?page_token={}&limit={}", t, limit), None => format!("?limit={}", limit) };
+                let mut s = std::net::TcpStream::connect(addr).unwrap();
+                s.write_all(format!("GET /names{} HTTP/1.1\r\nHost: r\r\nConnection: close\r\n\r\n", q).as_bytes()).unwrap();
+                let mut buf = vec![];
+                s.read_to_end(&mut buf).unwrap();
+                let Some(resp) = crate::live::parse_response(&buf) else { return json!({"as_specified": false, "why": "no response", "tokens": tokens}) };
+                if resp.status != 200 {
+                    return json!({"as_specified": false, "why": format!("status {} following token {:?}: {}", resp.status, token, String::from_utf8_lossy(&resp.body)), "seen": seen, "tokens": tokens});
+                }
+                let body: Value = serde_json::from_slice(&resp.body).unwrap_or(Value::Null);
+                seen.extend(body["items"].as_array().unwrap().iter().map(|x| x.as_str().unwrap().to_string()));
+                match body["next_page"].as_str() { Some(t) => { tokens.push(t.to_string()); token = Some(t.to_string()) } None => break }
+            }
+            json!({"as_specified": seen == names, "seen": seen, "tokens": tokens})
         }).await.unwrap();
         let _ = server.close().await;
         out
